@@ -1,3 +1,229 @@
+(* unroll / space_unroll / roll as a state machine: what roll() restores, for every call history. *)
 From Coq Require Import List ZArith Bool Arith Lia.
 Import ListNotations.
 From SFV Require Import C13.Model.
+
+Lemma register_of_true : forall n i, register_of i (repeat true n) = seq i n.
+Proof. induction n; intros; simpl; [reflexivity|]. now rewrite IHn. Qed.
+
+Lemma register_of_app : forall a b i, register_of i (a ++ b) = register_of i a ++ register_of (i + length a) b.
+Proof.
+  induction a as [|x a IH]; intros; simpl.
+  - now rewrite Nat.add_0_r.
+  - destruct x; simpl; rewrite IH; replace (S i + length a) with (i + S (length a)) by lia; reflexivity.
+Qed.
+
+Lemma register_of_dead : forall d i, Forall (fun b => b = false) d -> register_of i d = [].
+Proof. induction d; intros i H; [reflexivity|]. inversion H; subst. simpl. auto. Qed.
+
+Lemma rev_repeat : forall A (x : A) k, rev (repeat x k) = repeat x k.
+Proof.
+  induction k; [reflexivity|]. simpl. rewrite IHk.
+  clear. induction k; [reflexivity|]. simpl. now rewrite IHk.
+Qed.
+
+Lemma deact_repeat : forall k Y, deact_from_end k (repeat true k ++ Y) = repeat false k ++ Y.
+Proof. induction k; intros; simpl; [destruct Y; reflexivity|]. now rewrite IHk. Qed.
+
+Lemma delete_last_tail : forall k X, delete_last k (X ++ repeat true k) = X ++ repeat false k.
+Proof.
+  intros. unfold delete_last. rewrite rev_app_distr, rev_repeat, deact_repeat.
+  rewrite rev_app_distr, rev_involutive, rev_repeat. reflexivity.
+Qed.
+
+Section Histories.
+  Variable N : list nat.
+  Variable sh : shiftspec.
+  Variable T : nat.
+  Variable cs : list rcmd.
+  Let n := concurr N.
+
+  (* reachable states: the original n references, then deactivated leftovers of earlier
+     space-unrollings, then the k references added by the current space-unrolling *)
+  Definition Inv (st : pstate) : Prop :=
+    exists dead k,
+      st_regs st = repeat true n ++ dead ++ repeat true k /\
+      Forall (fun b => b = false) dead /\
+      st_init st = (Z.of_nat n + Z.of_nat k)%Z /\
+      match st_space st with
+      | None => k = 0
+      | Some _ => ((0 < st_added st)%Z -> Z.of_nat k = st_added st) /\ ((st_added st <= 0)%Z -> k = 0)
+      end /\
+      (is_unrolled st = false -> st_circ st = CRolled /\ st_shots st = None).
+
+  Definition Rolled (st : pstate) : Prop :=
+    st_circ st = CRolled /\ register st = seq 0 n /\ st_init st = Z.of_nat n /\
+    st_unrolled st = None /\ st_space st = None /\ st_shots st = None.
+
+  Lemma Inv_locked : forall c r i l u s o a l',
+    Inv (mkS c r i l u s o a) -> Inv (mkS c r i l' u s o a).
+  Proof. intros. exact H. Qed.
+
+  Lemma reg_orig : forall dead, Forall (fun b => b = false) dead ->
+    register_of 0 (repeat true n ++ dead ++ repeat true 0) = seq 0 n.
+  Proof.
+    intros dead Hd. simpl. rewrite app_nil_r, register_of_app, register_of_true.
+    rewrite register_of_dead by exact Hd. now rewrite app_nil_r.
+  Qed.
+
+  Lemma dead_ext : forall dead k, Forall (fun b => b = false) dead ->
+    Forall (fun b => b = false) (dead ++ repeat false k).
+  Proof.
+    intros. apply Forall_app. split; [assumption|]. apply Forall_forall. intros x Hx. now apply repeat_spec in Hx.
+  Qed.
+
+  Ltac fin := try assumption; try reflexivity; try lia; try discriminate.
+
+  Lemma roll_spec : forall st, Inv st -> Inv (do_roll st) /\ Rolled (do_roll st) /\ st_locked (do_roll st) = st_locked st.
+  Proof.
+    intros st (dead & k & Hr & Hd & Hi & Hs & Hc).
+    unfold do_roll. destruct (is_unrolled st) eqn:U; simpl.
+    - destruct (st_space st) eqn:S.
+      + destruct Hs as [Hpos Hneg]. destruct (0 <? st_added st)%Z eqn:A.
+        * apply Z.ltb_lt in A. specialize (Hpos A).
+          assert (Ek : Z.to_nat (st_added st) = k) by lia.
+          assert (Er : delete_last (Z.to_nat (st_added st)) (st_regs st) = repeat true n ++ (dead ++ repeat false k) ++ repeat true 0).
+          { rewrite Ek, Hr. rewrite !app_assoc. rewrite delete_last_tail. simpl. now rewrite app_nil_r, <- !app_assoc. }
+          split; [|split].
+          -- exists (dead ++ repeat false k), 0. simpl. rewrite Er.
+             split; [reflexivity|]. split; [apply dead_ext; exact Hd|]. split; [lia|]. split; [reflexivity|].
+             intros _. split; reflexivity.
+          -- unfold Rolled, register. simpl. rewrite Er. rewrite reg_orig by (apply dead_ext; exact Hd).
+             split; [reflexivity|]. split; [reflexivity|]. split; [lia|]. repeat split.
+          -- reflexivity.
+        * apply Z.ltb_ge in A. specialize (Hneg A). subst k.
+          split; [|split].
+          -- exists dead, 0. simpl. split; [exact Hr|]. split; [exact Hd|]. split; [exact Hi|]. split; [reflexivity|].
+             intros _. split; reflexivity.
+          -- unfold Rolled, register. simpl. rewrite Hr, Hi. rewrite reg_orig by exact Hd.
+             split; [reflexivity|]. split; [reflexivity|]. split; [lia|]. repeat split.
+          -- reflexivity.
+      + subst k. split; [|split].
+        * exists dead, 0. simpl. split; [exact Hr|]. split; [exact Hd|]. split; [exact Hi|]. split; [reflexivity|].
+          intros _. split; reflexivity.
+        * unfold Rolled, register. simpl. rewrite Hr, Hi. rewrite reg_orig by exact Hd.
+          split; [reflexivity|]. split; [reflexivity|]. split; [lia|]. repeat split.
+        * reflexivity.
+    - destruct (Hc eq_refl) as [Hc1 Hc2].
+      unfold is_unrolled in U. destruct (st_unrolled st) eqn:Un; [discriminate|].
+      destruct (st_space st) eqn:S; [discriminate|]. subst k.
+      split; [|split].
+      + exists dead, 0. rewrite S. split; [exact Hr|]. split; [exact Hd|]. split; [exact Hi|]. split; [reflexivity|].
+        intros _. split; assumption.
+      + unfold Rolled, register. rewrite Hr, Hi. rewrite reg_orig by exact Hd.
+        split; [exact Hc1|]. split; [reflexivity|]. split; [lia|]. split; [exact Un|]. split; [exact S|exact Hc2].
+      + reflexivity.
+  Qed.
+
+  Lemma Inv_init : Inv (init_state N).
+  Proof.
+    exists [], 0. unfold init_state. simpl. fold n. rewrite app_nil_r.
+    repeat split; try reflexivity; try constructor. lia.
+  Qed.
+
+  Ltac notrolled := let X := fresh in intros X; exfalso; revert X; unfold is_unrolled; simpl;
+                    repeat match goal with |- context [match ?x with _ => _ end] => destruct x end; discriminate.
+
+  Lemma Inv_unroll : forall s st, Inv st -> Inv (fst (do_unroll N sh T cs s st)).
+  Proof.
+    intros s st H. unfold do_unroll.
+    destruct (st_unrolled st) eqn:U.
+    - destruct (match st_shots st with Some s0 => s0 =? s | None => false end).
+      + simpl. destruct H as (dead & k & Hr & Hd & Hi & Hs & Hc).
+        exists dead, k. simpl.
+        split; [exact Hr|]. split; [exact Hd|]. split; [exact Hi|]. split; [exact Hs|]. notrolled.
+      + cbv zeta.
+        set (st0 := mkS (st_circ st) (st_regs st) (st_init st) false (Some l) (st_space st) (st_shots st) (st_added st)).
+        assert (H0 : Inv st0).
+        { destruct H as (dead & k & Hr & Hd & Hi & Hs & Hc). exists dead, k. simpl.
+          split; [exact Hr|]. split; [exact Hd|]. split; [exact Hi|]. split; [exact Hs|]. notrolled. }
+        destruct (roll_spec st0 H0) as ((dead & k & Hr & Hd & Hi & Hs & Hc) & (R1 & R2 & R3 & R4 & R5 & R6) & _).
+        simpl. exists dead, k. simpl. rewrite R5 in Hs.
+        split; [exact Hr|]. split; [exact Hd|]. split; [exact Hi|]. split; [exact Hs|]. notrolled.
+    - destruct (st_space st) eqn:S.
+      + simpl. destruct H as (dead & k & Hr & Hd & Hi & Hs & Hc).
+        exists dead, k. simpl. rewrite S in Hs.
+        split; [exact Hr|]. split; [exact Hd|]. split; [exact Hi|]. split; [exact Hs|]. notrolled.
+      + simpl. destruct H as (dead & k & Hr & Hd & Hi & Hs & Hc).
+        exists dead, k. simpl. rewrite S in Hs.
+        split; [exact Hr|]. split; [exact Hd|]. split; [exact Hi|]. split; [exact Hs|]. notrolled.
+  Qed.
+
+  Lemma Inv_space_fresh : forall s lk st, Inv st -> Inv (fst (do_space_unroll_fresh N sh T cs s lk st)).
+  Proof.
+    intros s lk st H. unfold do_space_unroll_fresh. cbv zeta.
+    set (st0 := mkS (st_circ st) (st_regs st) (st_init st) false (st_unrolled st) (st_space st) (st_shots st) (st_added st)).
+    assert (H0 : Inv st0) by exact H.
+    destruct (roll_spec st0 H0) as ((dead & k & Hr & Hd & Hi & Hs & Hc) & (R1 & R2 & R3 & R4 & R5 & R6) & _).
+    rewrite R5 in Hs. subst k. simpl in Hr, Hi.
+    set (added := (Z.of_nat T - st_init (do_roll st0) + (Z.of_nat (concurr N) - 1))%Z).
+    simpl. destruct (0 <? added)%Z eqn:A.
+    - apply Z.ltb_lt in A. exists dead, (Z.to_nat added). simpl.
+      split; [rewrite Hr; now rewrite app_nil_r, <- app_assoc|]. split; [exact Hd|].
+      split; [rewrite Hi; fold n; lia|]. split; [split; intros; lia|]. notrolled.
+    - apply Z.ltb_ge in A. exists dead, 0. simpl.
+      split; [exact Hr|]. split; [exact Hd|]. split; [rewrite Hi; reflexivity|]. split; [split; intros; [lia|reflexivity]|]. notrolled.
+  Qed.
+
+  Lemma Inv_space : forall s st, Inv st -> Inv (fst (do_space_unroll N sh T cs s st)).
+  Proof.
+    intros s st H. unfold do_space_unroll.
+    destruct (st_space st) eqn:S; [|apply Inv_space_fresh; exact H].
+    destruct (match st_shots st with Some s0 => s0 =? s | None => false end); [|apply Inv_space_fresh; exact H].
+    simpl. destruct H as (dead & k & Hr & Hd & Hi & Hs & Hc).
+    exists dead, k. simpl. rewrite S in Hs.
+    split; [exact Hr|]. split; [exact Hd|]. split; [exact Hi|]. split; [exact Hs|]. notrolled.
+  Qed.
+
+  Lemma Inv_step : forall st c, Inv st -> Inv (fst (step N sh T cs st c)).
+  Proof.
+    intros st c H. destruct c; simpl.
+    - apply Inv_unroll; exact H.
+    - apply Inv_space; exact H.
+    - apply roll_spec; exact H.
+    - exact H.
+  Qed.
+
+  Lemma Inv_run : forall h st, Inv st -> Inv (run_calls N sh T cs st h).
+  Proof. induction h; intros st H; simpl; [exact H|]. apply IHh. apply Inv_step. exact H. Qed.
+
+  (* After any history of calls, roll() gives back the rolled circuit, the original list of ACTIVE
+     register references, init_num_subsystems, empty caches, and leaves the lock flag alone. *)
+  Theorem roll_restores_active : forall h,
+    let st := run_calls N sh T cs (init_state N) h in
+    Rolled (do_roll st) /\ st_locked (do_roll st) = st_locked st.
+  Proof.
+    intros h st. destruct (roll_spec st (Inv_run h _ Inv_init)) as (_ & R & L). split; assumption.
+  Qed.
+End Histories.
+
+(* ---------------------------------------------------------------- refuted parts of "restores exactly" *)
+Definition ex_prog : list rcmd :=
+  [ mkR 0 [PNum 0; PNum 1] [1] false false false true;
+    mkR 1 [PSym 0; PNum 1] [0; 1] false false false true;
+    mkR 2 [PSym 1] [0] true false false true ].
+
+(* the whole register (including inactive references) is NOT restored *)
+Lemma roll_register_refuted : exists h,
+  st_regs (run_calls [2] ShDefault 3 ex_prog (init_state [2]) h) <> st_regs (init_state [2])
+  /\ last h Lock = Roll.
+Proof. exists [SpaceUnroll 1; Roll]. split; [vm_compute; discriminate|reflexivity]. Qed.
+
+(* the lock flag is lost by the early returns *)
+Lemma lock_refuted : exists h, In Lock h /\
+  st_locked (run_calls [2] ShDefault 3 ex_prog (init_state [2]) h) = false.
+Proof. exists [Lock; Unroll 1; Unroll 1]. split; [now left|reflexivity]. Qed.
+
+(* a second space-unrolling after roll() acts on modes beyond init_num_subsystems *)
+Definition max_mode (c : circ) : nat :=
+  match c with CRolled => 0 | CUnrolled u => fold_right Nat.max 0 (flat_map (fun x => u_modes x) u) end.
+Lemma space_unroll_again_refuted : exists h,
+  let st := run_calls [2] ShDefault 3 ex_prog (init_state [2]) h in
+  (st_init st <= Z.of_nat (max_mode (st_circ st)))%Z.
+Proof. exists [SpaceUnroll 1; Roll; SpaceUnroll 1]. vm_compute. discriminate. Qed.
+
+(* a failed unroll() poisons _unrolled_shots: space_unroll(2) then returns the 1-shot circuit *)
+Lemma stale_shots_refuted : exists h,
+  st_circ (run_calls [2] ShDefault 3 ex_prog (init_state [2]) (h ++ [SpaceUnroll 2]))
+  <> st_circ (run_calls [2] ShDefault 3 ex_prog (init_state [2]) [SpaceUnroll 2]).
+Proof. exists [SpaceUnroll 1; Unroll 2]. vm_compute. discriminate. Qed.
